@@ -377,6 +377,29 @@ def check_transient_fault(case, ctx):
             disk = ff.getvalue()
             frames, _ = _frames(disk)
             if ff.fault_offset not in ({0} | {e for _, e, _ in frames}):
+                good_frames, _ = _frames(disk[: ff.fault_offset - 4]) if ff.fault_offset >= 4 else ([], 0)
+                ends = {0} | {e for _, e, _ in good_frames}
+                if ff.fault_offset - 4 in ends and disk[ff.fault_offset - 4: ff.fault_offset - 3] == b"\x00":
+                    # exactly a dangling 4-byte length prefix was left behind and more frames followed it: what the
+                    # reader takes for that frame's payload starts with the next length prefix - not an object of
+                    # this format.  Everything before the tear is intact; nothing behind it may be handed out as a
+                    # record, and nothing that is not a record at all.
+                    ctx.cls("transient:dangling-length-prefix")
+                    ctx.nontriv((wrap, k, "dangling"))
+                    got, rexc = _read_prefix(lambda: RecordStreamReader(io.BytesIO(disk)))
+                    from flow.record.base import Record
+
+                    n_before = sum(1 for good in ok[: ok.index(False)] if good)
+                    want = [o for o, good in zip(obs_full, ok) if good]
+                    if any(not isinstance(x, Record) for x in got):
+                        bad = next(x for x in got if not isinstance(x, Record))
+                        raise Violation("transient/%s/yielded-non-record" % wrap, "after a dangling length prefix the reader "
+                                        "yielded %r (%s) as a record" % (bad, type(bad).__name__))
+                    gobs = [observe(r) for r in got]
+                    if gobs != want[: len(gobs)] or len(gobs) > n_before:
+                        raise Violation("transient/%s/yielded-behind-tear" % wrap, "%d records were complete before the torn "
+                                        "frame, the reader yielded %d" % (n_before, len(gobs)))
+                    continue
                 ctx.cls("transient:torn-frame(not judged)")
                 continue
             ctx.cls("transient:fault-at-frame-boundary")
